@@ -98,12 +98,17 @@ def judge(ctx, gname, g, m, f_ast, f2_ast, rng):
                 key = None
                 if ":nif" in got:
                     key = "C09:smt:not_implemented_failure-arity"
-                before = R2.STATS["empty_domain"]
                 ref = R2.evaluate_ref(f_ast, t)
-                R2.evaluate_ref(f2_ast, t)
-                from islamon.gen.formulas import unused_quantified_vars
-                if key is None and (R2.STATS["empty_domain"] > before or unused_quantified_vars(f_ast) or unused_quantified_vars(f2_ast)):
-                    key = "C09:quantifier-dropped:empty-domain"
+                if key is None:
+                    from islamon import patches
+                    with patches.no_forall_drop():   # repaired twin
+                        bx2, by2, got2 = ev3(ctx, x, t, g), ev3(ctx, y, t, g), ev3(ctx, v, t, g)
+                    if bx2 in ("T", "F") and by2 in ("T", "F"):
+                        X2, Y2 = bx2 == "T", by2 == "T"
+                        want2 = {"inv": not X2, "same": X2, "T": True, "F": False, "and": X2 and Y2, "or": X2 or Y2, "y": Y2,
+                                 "same_x_and_(y|x)": X2 and (Y2 or X2) and (X2 or not Y2)}[exp]
+                        if got2 == ("T" if want2 else "F"):
+                            key = "C09:quantifier-dropped:empty-domain"
                 ctx.violation(key, f"{name}: verdict {got}, expected {'T' if want else 'F'} (x={bx}, y={by}; specification for x: {ref})",
                               {"grammar": g, "x": text, "y": text2, "rewrite": name, "tree": tl})
             else:
